@@ -32,6 +32,7 @@ FLAVOURS = {
     "memfd": dict(features=["memfd"], nightly=False),
     "inproc": dict(features=["inproc"], nightly=False),
     "async": dict(features=["asynch"], nightly=False),
+    "async-inproc": dict(features=["asynch", "inproc"], nightly=False),
     "asan": dict(features=["asan"], nightly=True),
 }
 
